@@ -79,7 +79,8 @@ def callrcu_core(tier):
     S = "xcr_spec"
     return [Job(S, "default", "2,0,0,0", workers=8), Job(S, "default", "1,1,0,0", workers=8),
             Job(S, "free_pending", "1,0,0,0", workers=8), Job(S, "per_thread", "1,0,0,0", workers=8),
-            Job(S, "barrier", "1,0,0,0", {"reader": 1}, workers=8), Job(S, "reenqueue", "1,0,0,0", workers=8)]
+            Job(S, "barrier", "1,0,0,0", {"reader": 1}, workers=8), Job(S, "reenqueue", "1,0,0,0", workers=8),
+            Job(S, "during_gp", "1,0,0,0", workers=8)]
 
 
 def defer_builds():
